@@ -25,6 +25,9 @@ type Action struct {
 	Code int
 	Text []string // one entry per reply line; nil = default text
 	Raw  string
+	// Late (ActReply): the server processes the command and sends this reply, but only after the client has stopped
+	// waiting for it: the client's read runs into its deadline first, the reply is in the socket afterwards
+	Late bool
 	// NoTag: the reply is sent exactly as given, without the harness' per-reply tag at the end of its first line
 	NoTag bool
 }
@@ -71,6 +74,7 @@ type Exchange struct {
 	Line  string
 	Tag   string
 	Reply string // what the server sent ("<drop>", "<stall>")
+	Late  bool   // the reply was sent after the client's read had timed out
 	Code  int
 	Txn   int
 }
@@ -100,6 +104,7 @@ type Session struct {
 	InTLS      bool
 	Closed     bool // server closed its side
 	Stalled    bool
+	LateOut    []byte // reply bytes that reach the client only after its current read has timed out
 	QuitSeen   bool
 	Authed     bool
 	AuthTries  int
@@ -284,6 +289,11 @@ func (s *Session) answer(ev *Event, def Action) []byte {
 		if act.Kind == ActReplyThenDrop {
 			s.Closed = true
 		}
+	}
+	if act.Late && act.Kind == ActReply {
+		ex.Late = true
+		s.LateOut = append(s.LateOut, out...)
+		out = ""
 	}
 	s.Transcript = append(s.Transcript, ex)
 	if act.Kind == ActReply || act.Kind == ActReplyThenDrop {
